@@ -8,7 +8,7 @@ Lemma cfg_all_fields c : cfg_all c = true ->
   c_clear_u c = true /\ c_clear_v c = true /\ c_tensor_updates c = true /\ c_update_p c = true /\
   c_hook c = true /\ c_upd_u c = true /\ c_inv_flip c = true /\ c_inv_link c = true /\
   c_seq_update c = true /\ c_seq_clear c = true /\ c_seq_cond c = true /\ c_dense_grid_data c = true /\
-  c_spline_grid_clears c = true.
+  c_spline_grid_clears c = true /\ c_inv_exp_first c = true /\ c_link_unshares c = true.
 Proof.
   destruct c; unfold cfg_all; cbn. intro H.
   repeat (apply andb_prop in H; destruct H as [H ?]). subst. repeat split; reflexivity.
